@@ -83,10 +83,34 @@ func independenceMatrix(rt *rapid.T, h *harness.H) *caseC07 {
 	for i := 0; i < k; i++ {
 		mi := ast.Mode(d.Pick(4, "parammode"))
 		n := fmt.Sprintf("p%d", i+1)
-		switch d.Pick(3, "paramtype") {
+		switch d.Pick(5, "paramtype") {
 		case 0, 1:
 			f.Params = append(f.Params, ast.Param{Name: n, Ty: one(mi)})
 			pre = append(pre, &ast.Term{Kind: ast.TWait, X: ast.N(n)})
+		case 2, 3:
+			// a down shift (or two nested ones) with freely drawn modes: `m1 \/ m2 1`,
+			// `m1 \/ m2 (m3 \/ m4 1)`; the channel's own mode is the target of the outer shift. Legal
+			// shifts, continuation modes that fit, and independence are all the reference's to judge
+			mk := func(from, to ast.Mode, c *ast.Ty) *ast.Ty {
+				return &ast.Ty{K: ast.KDown, M: to, L: c, FromW: from.String(), ToW: to.String()}
+			}
+			inner := ast.One(ast.Mode(d.Pick(4, "m1")))
+			t := mk(inner.M, mi, inner)
+			uses := []*ast.Term{{Kind: ast.TShift, X: ast.N(n + "s"), Z: ast.N(n)}}
+			last := n + "s"
+			if d.Chance(45, "nested") {
+				m3, m4 := ast.Mode(d.Pick(4, "m3")), ast.Mode(d.Pick(4, "m4"))
+				if d.Likely(60, "fits") {
+					m3 = inner.M // the continuation of the outer shift really has the mode the shift comes from
+				}
+				in2 := ast.One(m4)
+				t = mk(inner.M, mi, mk(m4, m3, in2))
+				uses = append(uses, &ast.Term{Kind: ast.TShift, X: ast.N(n + "t"), Z: ast.N(n + "s")})
+				last = n + "t"
+			}
+			f.Params = append(f.Params, ast.Param{Name: n, Ty: t})
+			uses = append(uses, &ast.Term{Kind: ast.TWait, X: ast.N(last)})
+			pre = append(pre, uses...)
 		default:
 			t := ast.Tensor(mi, ast.One(mi), ast.One(mi))
 			t.Ann = mi.String()
@@ -98,8 +122,10 @@ func independenceMatrix(rt *rapid.T, h *harness.H) *caseC07 {
 	// the parameters are used up in a random order
 	for i := len(pre) - 1; i > 0; i-- {
 		j := d.Pick(i+1, "useorder")
-		if pre[i].Kind == ast.TWait && pre[j].Kind == ast.TWait && !strings.HasSuffix(pre[i].X.S, "a") && !strings.HasSuffix(pre[i].X.S, "b") &&
-			!strings.HasSuffix(pre[j].X.S, "a") && !strings.HasSuffix(pre[j].X.S, "b") {
+		plain := func(t *ast.Term) bool {
+			return t.Kind == ast.TWait && !strings.HasSuffix(t.X.S, "a") && !strings.HasSuffix(t.X.S, "b") && !strings.HasSuffix(t.X.S, "s") && !strings.HasSuffix(t.X.S, "t")
+		}
+		if plain(pre[i]) && plain(pre[j]) {
 			pre[i], pre[j] = pre[j], pre[i]
 		}
 	}
